@@ -451,6 +451,8 @@ def run(ctx):
     _phasor_family_inverse(ctx)
     _closed_phasor_net(ctx)
     _closed_phasor_net(ctx, nfreq=2)
+    if ctx.tier == "thorough":
+        _closed_phasor_net(ctx, nfreq=3)
     _all_component_weights(ctx)
     if err is not None:
         raise AnalysisError(err)
